@@ -464,7 +464,7 @@ func (m *Monitor) onSend(from *Node, msg *pb.Message) {
 	if m.off {
 		return
 	}
-	hs, _, _ := from.St.InitialState()
+	hs := from.DurableHS()
 	ob := m.o(from)
 	switch msg.GetType() {
 	case pb.MsgVoteResp:
@@ -518,6 +518,9 @@ func (m *Monitor) checkAckDurable(from *Node, msg *pb.Message, hs *pb.HardState)
 	}
 	i := msg.GetIndex()
 	li, _ := from.St.LastIndex()
+	if from.SyncedHS != nil {
+		li = min(li, from.SyncedLast)
+	}
 	if li < i {
 		m.c.violate("C05", "append acknowledged before durable", "node %d acks index %d (term %d) to %d but its storage ends at %d", from.ID, i, msg.GetTerm(), msg.GetTo(), li)
 		return
